@@ -38,21 +38,28 @@ for chunks in req.get("chunks", []):
 out["chunks"] = res
 
 res = []
-for cap, appends, width in req.get("raa", []):
+for cap, appends, width, reads in req.get("raa", []):
     try:
         a = RowAppendableArray(cap)
-        for rows in appends:
+        obs = []
+
+        def read(k):
+            r = a.to_array()
+            if width:
+                ok = bool(np.all(r == r[:, :1] + np.arange(width)[None, :] * 1000)) and r.shape[1] == width
+                obs.append({"k": k, "rows": [int(x) for x in r[:, 0]], "cols_ok": ok})
+            else:
+                obs.append({"k": k, "rows": [int(x) for x in r], "cols_ok": True})
+        for k, rows in enumerate(appends):
             arr = np.array(rows, dtype=np.int64)
             if width:
                 arr = np.repeat(arr[:, None], width, axis=1) + np.arange(width)[None, :] * 1000
                 arr = arr.reshape(len(rows), width)
             a.append_row(arr)
-        r = a.to_array()
-        if width:
-            ok = bool(np.all(r == r[:, :1] + np.arange(width)[None, :] * 1000)) and r.shape[1] == width
-            res.append({"rows": [int(x) for x in r[:, 0]], "cols_ok": ok})
-        else:
-            res.append({"rows": [int(x) for x in r], "cols_ok": True})
+            if (k + 1) in reads:
+                read(k + 1)
+        read(len(appends))
+        res.append({"reads": obs})
     except Exception as e:
         res.append(err(e))
 out["raa"] = res
